@@ -118,6 +118,22 @@ def check_hull(case, ctx):
     for e in ev:
         ctx.check(all(bb[0][i] - 1e-9 * big <= e[i] <= bb[1][i] + 1e-9 * big for i in range(dim)), "evalpt-outside-bbox",
                   "sampled point %r lies outside the bounding box %r" % (e, bb))
+    if pdim <= 2 and case["n"] >= 3:
+        # sampled from the upper to the lower end of the domain: the same points in reverse order, inside the same box
+        dom = [obj.domain] if pdim == 1 else list(obj.domain)
+        if pdim == 1:
+            obj.evaluate(start=dom[0][1], stop=dom[0][0])
+        else:
+            obj.evaluate(start_u=dom[0][1], stop_u=dom[0][0], start_v=dom[1][1], stop_v=dom[1][0])
+        rev = [list(e) for e in obj.evalpts]
+        ctx.label("sampled-in-descending-order")
+        ctx.check(len(rev) == len(ev), "evalpts-count", "sampling from the upper to the lower end gives %d points, %d in ascending order" % (len(rev), len(ev)))
+        for e in rev:
+            ctx.check(all(bb[0][i] - 1e-9 * big <= e[i] <= bb[1][i] + 1e-9 * big for i in range(dim)), "evalpt-outside-bbox",
+                      "sampled point %r (descending parameter range) lies outside the bounding box %r" % (e, bb))
+        if not d.get("unclamped"):
+            ctx.check(all(abs(a - b) <= 1e-12 * big for a, b in zip(rev[0], P[-1])) and all(abs(a - b) <= 1e-12 * big for a, b in zip(rev[-1], P[0])), "clamped-end",
+                      "descending sampling starts at %r and ends at %r; last / first control points %r / %r" % (rev[0], rev[-1], P[-1], P[0]))
     if not d.get("unclamped"):
         ctx.check(all(abs(a - b) <= 1e-12 * big for a, b in zip(ev[0], P[0])), "clamped-start", "evalpts[0] = %r, first control point %r" % (ev[0], P[0]))
         ctx.check(all(abs(a - b) <= 1e-12 * big for a, b in zip(ev[-1], P[-1])), "clamped-end", "evalpts[-1] = %r, last control point %r" % (ev[-1], P[-1]))
